@@ -146,17 +146,19 @@ Proof.
   replace (ser_elem en ++ ser_els els1 ++ ser_els els2 ++ ser_els els3)
     with (ser_els ([en] ++ els1 ++ els2 ++ els3))
     by (rewrite !ser_els_app; unfold ser_els at 1; cbn [map concat]; rewrite app_nil_r; reflexivity).
-  apply before_type_ser; [|exact Hes|reflexivity|].
-  - apply Forall_app; split; [|apply Forall_app; split; [|apply Forall_app; split]].
+  assert (Hall : Forall (fun e => e_type e <> T_SIG_VALUE /\ el_ok e) ([en] ++ els1 ++ els2 ++ els3)).
+  { apply Forall_app; split; [|apply Forall_app; split; [|apply Forall_app; split]].
     + constructor; [|constructor]. split; [unfold en; cbn; discriminate|exact Hen].
     + eapply Forall_types_ne; [|exact F1]. discriminate.
     + eapply Forall_types_ne; [|exact F2]. discriminate.
-    + eapply Forall_types_ne; [|exact F3]. discriminate.
+    + eapply Forall_types_ne; [|exact F3]. discriminate. }
+  rewrite (before_type_ser T_SIG_VALUE); [|exact Hall|exact Hes|reflexivity|].
+  - (* the portion starts at the Name, which is the first element *)
+    cbn [app]. unfold ser_els. cbn [map concat]. fold (ser_els (els1 ++ els2 ++ els3)).
+    cbn [from_type]. rewrite next_element_ser by exact Hen. reflexivity.
   - pose proof (ser_els_length_ge ([en] ++ els1 ++ els2 ++ els3)) as G.
-    assert (Forall el_ok ([en] ++ els1 ++ els2 ++ els3)).
-    { apply Forall_app; split; [constructor; [exact Hen|constructor]|].
-      apply Forall_app; split; [|apply Forall_app; split];
-        (eapply Forall_impl; [|eassumption]; intros e (_ & Hok); exact Hok). }
+    assert (Forall el_ok ([en] ++ els1 ++ els2 ++ els3))
+      by (eapply Forall_impl; [|exact Hall]; intros e (_ & Hok); exact Hok).
     specialize (G H). rewrite !app_length in *. lia.
 Qed.
 End DataPortion.
